@@ -31,6 +31,13 @@
 (*     condition blocks of the same shape (gpre / gpost / gbefore), and    *)
 (*     implemented by C without own conditions; its body increments by e.  *)
 (*   - via: the call is made on a value of static type C (0) or {I_via}.   *)
+(*   - ps: the PARAMETER SHAPE of f at every site: besides flags and the    *)
+(*     counter it takes no extra parameter ("none"), a resource first       *)
+(*     ("res1"), a resource after a non-resource ("int_res"), two resources  *)
+(*     around a non-resource ("res_int_res") or an optional resource after a *)
+(*     non-resource ("optres"); every body (own, default, overriding)        *)
+(*     destroys the resources it receives.  The judgement does not mention   *)
+(*     ps: conditions alone decide the outcome, whatever is passed.          *)
 (*                                                                         *)
 (* The JUDGEMENT is written from the language definition:                  *)
 (*   * every condition of the function's own declaration and of the        *)
@@ -76,8 +83,9 @@ CONSTANTS NI,         \* number of interfaces
 
 \* ph = 0: only the shape (hierarchy and declarations) is chosen; ph = 1: a full configuration;
 \* ph = 2: a shape in the unfiltered enumeration used to validate WellFormed against the checker
-VARIABLES ph, par, conf, ik, ck, dr, nest, e, via, fs
-vars == <<ph, par, conf, ik, ck, dr, nest, e, via, fs>>
+VARIABLES ph, par, conf, ik, ck, dr, nest, e, via, fs, ps
+vars == <<ph, par, conf, ik, ck, dr, nest, e, via, fs, ps>>
+PShapes == <<"none", "res1", "int_res", "res_int_res", "optres">>
 
 C == NI + 1
 Ifaces == 1..NI
@@ -326,7 +334,7 @@ KRows(s) == IF s > C THEN <<>> ELSE <<KCode(K(s))>> \o KRows(s + 1)
 
 \* Sanity and EmitRow in one pass (Expected evaluated once per configuration)
 RowOf(x) == [ni |-> NI, par |-> ParRows(1), conf |-> conf, sites |-> SiteRows(1),
-             d |-> d, r |-> r, nest |-> nest, e |-> EE, via |-> via,
+             d |-> d, r |-> r, nest |-> nest, e |-> EE, via |-> via, ps |-> ps,
              rel |-> Rels(1), lin |-> Lin, impl |-> Impl,
              napp |-> Cardinality(fs \cap ApplicableTests), nfalse |-> Cardinality(fs),
              ninh |-> Cardinality({s \in Closure : K(s).pre \/ K(s).post}),
@@ -369,7 +377,7 @@ ShapeDomains ==
   /\ conf \in DFSeqs(Ifaces)
   /\ ik \in [Ifaces -> IKinds]
 
-Rest0 == dr = <<0, 0>> /\ nest = FALSE /\ e = 0 /\ via = 0 /\ fs = {}
+Rest0 == dr = <<0, 0>> /\ nest = FALSE /\ e = 0 /\ via = 0 /\ fs = {} /\ ps = "none"
 
 CondBoth == [decl |-> TRUE, pre |-> TRUE, post |-> TRUE, body |-> FALSE]
 UnrelatedOK == IF FullUnrelated THEN TRUE ELSE \A i \in Ifaces \ Closure : ik[i] \in {Absent, CondBoth}
@@ -394,6 +402,7 @@ Next ==
          /\ dr' \in Choices(DRSeq, h \div 3)
          /\ e' \in (IF nv THEN Choices(ESeq, h \div 17) ELSE {0})
          /\ via' \in Choices(ViaSeq, h \div 101)
+         /\ ps' \in Choices(PShapes, h \div 7)
 
 Spec == Init /\ [][Next]_vars
 
